@@ -49,6 +49,14 @@ type Bounds struct {
 	Depth      int // events after the initial plan (sticky chains)
 	DFSDepth   int // depth of the unpruned differential search
 	R          int // minimum evaluations of each case (map-order nondeterminism)
+	// FixedParts: the initial cluster has exactly len(FixedParts) topics with these partition counts (instead of every
+	// combination of 1..MaxParts): families with many members and partitions would not be enumerable otherwise
+	FixedParts []int `json:",omitempty"`
+	// Light: only the membership events (a fresh member joins with any subscription, a member leaves)
+	Light bool `json:",omitempty"`
+	// MaxEvals > 0 caps the evaluations of one case (default 20 R); MinMembers > 0: initial groups have at least that many members
+	MaxEvals   int `json:",omitempty"`
+	MinMembers int `json:",omitempty"`
 }
 
 // ---------------------------------------------------------------------------------------------
@@ -295,6 +303,9 @@ func Events(s *State, b Bounds, pool []string) []Event {
 			}
 			for _, ss := range subs {
 				evs = append(evs, Event{Kind: "join", Member: id, Subs: ss})
+				if b.Light {
+					continue
+				}
 				for _, st := range []string{"old", "same", "v0"} {
 					for _, cl := range []string{"all", "dirty", "one"} {
 						evs = append(evs, Event{Kind: "join", Member: id, Subs: ss, Stale: st, Claim: cl})
@@ -307,6 +318,9 @@ func Events(s *State, b Bounds, pool []string) []Event {
 		for _, m := range s.Members {
 			evs = append(evs, Event{Kind: "leave", Member: m.ID})
 		}
+	}
+	if b.Light {
+		return evs
 	}
 	for _, m := range s.Members {
 		for _, ss := range subs {
@@ -513,10 +527,16 @@ func Successor(in *Input, plan map[string]map[string][]int32, canon bool) *State
 func InitialStates(strat string, b Bounds, pool []string, topicNames []string) []*State {
 	var out []*State
 	for nt := 1; nt <= b.MaxTopics && nt <= len(topicNames); nt++ {
+		if len(b.FixedParts) > 0 && nt != len(b.FixedParts) {
+			continue
+		}
 		names := topicNames[:nt]
 		counts := make([]int, nt)
 		for i := range counts {
 			counts[i] = 1
+			if len(b.FixedParts) > 0 {
+				counts[i] = b.FixedParts[i]
+			}
 		}
 		subs := subsets(names)
 		for {
@@ -525,7 +545,7 @@ func InitialStates(strat string, b Bounds, pool []string, topicNames []string) [
 				topics[i] = Topic{names[i], counts[i]}
 			}
 			for _, ids := range subsets(pool) {
-				if len(ids) > b.MaxMembers {
+				if len(ids) > b.MaxMembers || len(ids) < b.MinMembers {
 					continue
 				}
 				ids = append([]string(nil), ids...)
@@ -549,6 +569,9 @@ func InitialStates(strat string, b Bounds, pool []string, topicNames []string) [
 						break
 					}
 				}
+			}
+			if len(b.FixedParts) > 0 {
+				break
 			}
 			i := 0
 			for ; i < nt; i++ {
